@@ -11,7 +11,7 @@
 (* provide_liquidity, withdraw_liquidity, collect_protocol_fees) plus the     *)
 (* passage of blocks.  The curve itself is Stable.tla: D and y are the exact  *)
 (* roots found by bisection, never the contract's Newton iterations.          *)
-EXTENDS Stable
+EXTENDS Stable, Slip
 
 CONSTANTS MIN_AMP, MAX_AMP, MAX_AMP_CHANGE, MIN_RAMP_BLOCKS   \* Num
 
@@ -74,6 +74,12 @@ SwapChecks(s, f, i, j, k, offer, curveOut, o, t) ==
         <<"C04.swap.invariant-per-LP-never-decreases", D0 \preceq D1>>,
         <<"C04.swap.invariant-decrease-within-rounding-dust", D0 \preceq D1 \/ D0 \preceq (D1 ++ dustD)>>,
         <<"C04.ramp-untouched", SameRamp(s, t)>> >>
+\* slippage limits of an executed / refused swap (C15): ms = max spread or "none", bp = belief price or "none"
+SpreadChecks(offer, o, ms, bp) ==
+  << <<"C15.trio.swap.bound", SpreadBound(offer, Gross(o), o.spread, ms, bp)>> >>
+SpreadInsideChecks(offer, sim, ms, bp) ==
+  << <<"C15.trio.swap.inside-rejected",
+        ~(sim.res = "ok" /\ Zero \prec offer /\ SpreadInside(offer, Gross(sim), sim.spread, ms, bp))>> >>
 SimChecks(sim, o) ==
   << <<"C14.trio.simulation=execution",
         sim.res = "ok" /\ sim.ret = o.ret /\ sim.sf = o.sf /\ sim.pf = o.pf /\ sim.bf = o.bf /\ sim.spread = o.spread>> >>
